@@ -152,6 +152,23 @@ func homeExported(w *model.World, sub model.Op) bool {
 }
 
 func planOp(w *model.World, op model.Op) (p plan) {
+	if op.K == "defgv" {
+		// (defun gv<name> () <name>): a body that reads the variable; no definition of
+		// the monitored names changes, whether or not the variable exists yet
+		e := w.Resolve(w.Cur, mnameOf(op.N, model.Var))
+		switch {
+		case len(e.Must) == 1 && len(e.May) == 0:
+			p.cls = "defgv/resolved"
+		case len(e.Must) == 0 && len(e.May) == 0:
+			p.cls = "defgv/forward"
+		default:
+			p.cls = "defgv/ambiguous"
+			return
+		}
+		p.ok = true
+		p.parts = []string{p.cls}
+		return
+	}
 	if op.K == "defg" {
 		// (defun g<name> () (<name>)): a body that calls the function; no
 		// definition of the monitored names changes
@@ -507,6 +524,9 @@ var probes = []string{
 	// names of the locked package cl seen through a user package
 	"3| locked fmakunbound; locked makunbound; locked unintern; locked unexport; locked defun; locked use-pa; locked fmakunbound-q; setq v0; export v0; in 1; use 0; locked fmakunbound; locked unexport",
 	"3| locked unexport-pa",
+	// a variable that a function body read before it was defined, then unuse-package of anything
+	"3| defgv v0; setq v0; use 1; unuse 1; defgv v1; defvar v1; unuse 2",
+	"3| defgv v0; defvar v0; export v0; in 1; use 0; unuse 0; in 0; unuse 1",
 	// a package does not use itself
 	"3| setq v0; export v0; use 0; unuse 0; in 1; use 0; use 1; unuse 1; use 1 @1; unuse 0 @0",
 	// one symbol as variable and function: export and unexport act on both
@@ -899,7 +919,7 @@ var opKinds = []struct {
 }{
 	{"in", 10}, {"use", 10}, {"unuse", 7}, {"export", 12}, {"unexport", 7},
 	{"setq", 10}, {"defvar", 4}, {"defun", 10}, {"makunbound", 5}, {"fmakunbound", 5},
-	{"defpackage", 6}, {"fail", 3}, {"defg", 2}, {"locked", 1},
+	{"defpackage", 6}, {"fail", 3}, {"defg", 2}, {"defgv", 2}, {"locked", 1},
 }
 
 // extKinds are only generated in histories with extended operations:
@@ -973,6 +993,8 @@ func randOp(r *rand.Rand, w *model.World, ext, dual bool) model.Op {
 		op.N = fw.Pick(r, allNames) // a function name too: the symbol exists before its defun
 	case "defun", "fmakunbound", "defg":
 		op.N = name(funNames)
+	case "defgv":
+		op.N = name(varNames)
 	case "fail":
 		op.N = fw.Pick(r, failKinds)
 		op.P = r.IntN(slots)
@@ -1247,6 +1269,8 @@ func (rw *world) render(op model.Op, val int) string {
 		return fmt.Sprintf("(fmakunbound '%s)", upper(qn))
 	case "defg":
 		return fmt.Sprintf("(defun g%s () (%s))", op.N, op.N)
+	case "defgv":
+		return fmt.Sprintf("(defun gv%s () %s)", op.N, op.N)
 	case "defpackage":
 		var b strings.Builder
 		if op.V%2 == 1 && len(op.Exp) == 0 {
